@@ -10,11 +10,12 @@ import bellows.types as t
 from pyvc.contracts import T, contract
 
 # steering codes named in the statement -> the unified statuses that steer the same decision
+# "busy ... codes that steer retries": the unified statuses on which send_packet retries the enqueue (the retry
+# decision reads exactly these three; a busy code mapped anywhere else -- sl_Status.BUSY included -- is a refusal)
 BUSY_SET = (
     t.sl_Status.ZIGBEE_MAX_MESSAGE_LIMIT_REACHED,
     t.sl_Status.TRANSMIT_BUSY,
     t.sl_Status.ALLOCATION_FAILED,
-    t.sl_Status.BUSY,
 )
 STEERING = (
     (t.EmberStatus.MAX_MESSAGE_LIMIT_REACHED, BUSY_SET),
@@ -28,7 +29,7 @@ STEERING = (
 )
 
 
-@contract("bellows.types.named.sl_Status.from_ember_status", props=["C18"])
+@contract("bellows.types.named.sl_Status.from_ember_status", props=["C18", "C12"])
 def _(c):
     c.cases(
         ("unified", {"cls": T.const(t.sl_Status), "status": T.enum(t.sl_Status)}),
